@@ -303,7 +303,7 @@ def main():
     for kind in ("score_and_refine", "refine_assigned"):
         for n in range(0, 4):
             if n == 3 and not thorough and kind == "refine_assigned": continue
-            jobs.append(("%s[n=%d]" % (kind, n), mk_refine(kind, n), dict(replay=replay_refine, timeout_ms=30000, keyfn=keyfn, budget_s=(900 if thorough else 150))))   # budget: a changed tree with more forks per peak ends as inconclusive / violation instead of running on
+            jobs.append(("%s[n=%d]" % (kind, n), mk_refine(kind, n), dict(replay=replay_refine, timeout_ms=30000, keyfn=keyfn, budget_s=(900 if thorough else 300))))   # budget: a changed tree with more forks per peak ends as inconclusive / violation instead of running on
     harness.run_parallel(ck, jobs)
 
     ck.finish("The C kernels are executed from clang's IR of the current src/closest.c on symbolic UBI, g-vectors and tolerance; every "
